@@ -533,7 +533,104 @@ def run_live(case: dict):
     return ok(**info)
 
 
+# ------------------------------------------------------------------ the command-line client (child process, live peer)
+
+CLI_CMDS = {
+    "get": lambda port: ["get", f"gemini://localhost:{port}/"],
+    "tofu-trust": lambda port: ["tofu", "trust", "localhost", "--port", str(port)],
+}
+
+
+def enum_cli(tier):
+    for cmd in CLI_CMDS:
+        for vn in VERS:
+            yield {"cmd": cmd, "v": vn}
+
+
+def run_cli(case: dict):
+    """`python -m nauyaca <cmd>` against a live peer that offers exactly one protocol version (security level 0, so that
+    only the client's own floor can refuse it). What counts is whether the peer saw a completed handshake."""
+    import socket
+    import subprocess
+    import sys
+    import threading
+
+    setup_logging()
+    home = scratch.subdir("c20-cli-home")
+    c = certs.get("rsa-a")
+    sctx = ssl.SSLContext(ssl.PROTOCOL_TLS_SERVER)
+    try:
+        sctx.set_ciphers("ALL:@SECLEVEL=0")
+        sctx.minimum_version = VERS[case["v"]]
+        sctx.maximum_version = VERS[case["v"]]
+    except (ssl.SSLError, ValueError):
+        return ok(handshake=False, control=False, note="this build cannot offer the version")
+    sctx.load_cert_chain(c.cert_path, c.key_path)
+    lsock = socket.socket()
+    lsock.bind(("127.0.0.1", 0))
+    lsock.listen(4)
+    port = lsock.getsockname()[1]
+    stop = threading.Event()
+    seen = {"handshakes": 0, "versions": [], "got": b""}
+
+    def serve():
+        lsock.settimeout(0.2)
+        while not stop.is_set():
+            try:
+                raw, _ = lsock.accept()
+            except OSError:
+                continue
+            try:
+                raw.settimeout(3)
+                conn = sctx.wrap_socket(raw, server_side=True)
+                seen["handshakes"] += 1
+                seen["versions"].append(conn.version())
+                try:
+                    d = conn.recv(4096)
+                    seen["got"] += d
+                    if d:
+                        conn.sendall(b"20 text/gemini\r\nOK\n")
+                except OSError:
+                    pass
+                finally:
+                    try:
+                        conn.close()
+                    except OSError:
+                        pass
+            except (ssl.SSLError, OSError):
+                raw.close()
+
+    th = threading.Thread(target=serve, daemon=True)
+    th.start()
+    try:
+        os.makedirs(os.path.join(home, ".nauyaca"), exist_ok=True)
+        env = dict(os.environ, HOME=home, NO_COLOR="1", TERM="dumb")
+        env.pop("OPENSSL_CONF", None)
+        pr = subprocess.run([sys.executable, "-m", "nauyaca", *CLI_CMDS[case["cmd"]](port)], env=env, capture_output=True, text=True, timeout=90)
+    finally:
+        stop.set()
+        th.join(2)
+        lsock.close()
+        import shutil
+
+        shutil.rmtree(home, ignore_errors=True)
+    info = {"handshake": seen["handshakes"] > 0, "versions": seen["versions"], "exit": pr.returncode, "out": (pr.stdout + pr.stderr)[-100:]}
+    if case["v"] in ("1.0", "1.1"):
+        if seen["handshakes"]:
+            return viol("old-tls-accepted", f"`nauyaca {case['cmd']}` completed a {seen['versions']} handshake with a peer that offers "
+                        f"TLS {case['v']} only (exit {pr.returncode}; the peer then received {seen['got'][:40]!r})", **info)
+        return ok(**info)
+    # TLS 1.2 / 1.3 peers are the control: the property does not demand that they are accepted, the evidence records it
+    info["control_completed"] = seen["handshakes"] > 0
+    return ok(**info)
+
+
 LANES = [
+    Lane(name="client-cli", run_case=run_cli, enumerate=enum_cli, budget={"quick": 1, "thorough": 1},
+         shards={"quick": 12, "thorough": 12}, nontrivial=lambda c, v: c["v"] in ("1.0", "1.1"),
+         labels=lambda c, v: [c["cmd"], "v" + c["v"], "hs" if v.info.get("handshake") else "refused"], exhaustive=True,
+         rule="the command-line client in a child process (get, tofu trust) x a live loopback peer that offers "
+              "exactly one of 4 protocol versions at security level 0 (exhaustive)"),
     Lane(name="live", run_case=run_live, enumerate=enum_live, budget={"quick": 0, "thorough": 1},
          shards={"quick": 1, "thorough": 4}, nontrivial=lambda c, v: c["plain"] is not None or c["v"] in ("1.0", "1.1"),
          labels=lambda c, v: [c["row"], "plaintext" if c["plain"] is not None else "v" + c["v"]], exhaustive=True,
